@@ -49,7 +49,11 @@ def parseOp (tok : String) : Option (Nat × Op Nat Nat Pt) :=
       (match rest with
       | ["E", kw] => (parseKw kw).map Op.enter
       | ["X"] => some Op.exit
-      | ["R", k] => k.toNat?.map Op.raise
+      | ["R", k, kd] =>
+        let kind : Option ExitKind := if kd = "e" then some .exception else if kd = "b" then some .baseException
+          else if kd = "n" then some .normal else none
+        match k.toNat?, kind with
+        | some k, some kind => some (Op.raise k kind) | _, _ => none
       | ["L", l, kw] => match l.toNat?, parseKw kw with
         | some l, some kw => some (Op.log l kw) | _, _ => none
       | ["B", l, kw] => match l.toNat?, parseKw kw with
